@@ -82,6 +82,9 @@ func Tokenize(src string, keepTrivia bool) []Tok {
 					if j < n && (src[j] == '+' || src[j] == '-') {
 						j++
 					}
+				} else if d == 'l' && j+1 < n && (src[j+1] == 'f' || src[j+1] == 'i' || src[j+1] == 'u') {
+					j += 2 // naga's 64-bit literal suffixes lf / li / lu
+					break
 				} else if d == 'u' || d == 'i' || d == 'f' || d == 'h' {
 					j++
 					break
